@@ -84,9 +84,19 @@ def text_of(name, v):
     return repr(float(v))
 
 
-def cli_args(assign):
+SHORT = {"SynchrotronFrequency": "f", "RevolutionFrequency": "F", "DampingTime": "d", "HarmonicNumber": "H", "InitialDistFile": "i",
+         "BunchCurrent": "I", "BendingRadius": "R", "BeamEnergy": "E", "BeamEnergySpread": "e", "Impedance": "Z", "VacuumGap": "G",
+         "AcceleratingVoltage": "V", "output": "o", "outstep": "n", "StepsPerTs": "N", "padding": "p", "PhaseSpaceSize": "P",
+         "GridSize": "s", "rotations": "T"}
+
+
+def cli_args(assign, short=()):
+    """short: names to be given through their one-letter option (value as a separate token; negative numbers keep the long form)"""
     out = []
     for k, v in assign.items():
+        if k in short and k in SHORT and not isinstance(v, (list, bool)) and not str(text_of(k, v)).startswith("-"):
+            out.extend(["-" + SHORT[k], text_of(k, v)])
+            continue
         if isinstance(v, list):
             out.append("--" + k)
             out.extend(text_of(k, x) for x in v)
